@@ -13,6 +13,7 @@ type isStandardClass interface {
 	initFormMap() map[string]*SlotDef
 	defaultsMap() map[string]slip.Object
 	allDefaultInitArgs() []*defaultInitArg
+	classSlotOwners() map[string]isStandardClass
 	precedenceList() []slip.Symbol
 
 	Ready() bool
